@@ -385,6 +385,14 @@ def gen_doc(rng, adversarial=False):
                 cs, ce = pick([('auto', 'auto'), ('auto', ('span', 2, None)), (('span', 2, None), 'auto')])
             if mode == 'col':
                 rs, re = pick([('auto', 'auto'), ('auto', ('span', 2, None)), (('span', 2, None), 'auto')])
+        if areas is not None and rng.random() < 0.4:
+            # placement by template area: `grid-area: a`, or one axis only (`grid-row: a`)
+            name = (None, None, pick([a for row in areas for a in row if a] + ['p', 'q']))
+            which = pick(['both', 'both', 'rows', 'cols'])
+            if which in ('both', 'rows'):
+                rs = re = name
+            if which in ('both', 'cols'):
+                cs = ce = name
         it = {'id': i, 'order': pick([0, 0, 0, 0, 1, -1]), 'rs': rs, 're': re, 'cs': cs, 'ce': ce,
               'width': None, 'height': None, 'ml': 0, 'mr': 0, 'mt': 0, 'mb': 0,
               'pl': 0, 'pr': 0, 'pt': 0, 'pb': 0, 'bl': 0, 'br': 0, 'bt': 0, 'bb': 0,
@@ -431,7 +439,7 @@ def wire_doc(doc):
     return sx.line('grid', cont, items)
 
 
-def html_of(doc):
+def html_of(doc, shorthand=False):
     areas = 'none'
     if doc['areas'] is not None:
         areas = ' '.join("'" + ' '.join(a or '.' for a in row) + "'" for row in doc['areas'])
@@ -440,12 +448,16 @@ def html_of(doc):
             f'grid-auto-rows:{" ".join(css_track(t) for t in doc["auto_rows"])};'
             f'grid-auto-columns:{" ".join(css_track(t) for t in doc["auto_cols"])};'
             f'grid-auto-flow:{doc["flow"]}{" dense" if doc["dense"] else ""};grid-template-areas:{areas};'
-            f'column-gap:{px(doc["colgap"])};row-gap:{px(doc["rowgap"])};justify-content:{doc["jc"]};'
+            + (f'gap:{px(doc["rowgap"])} {px(doc["colgap"])};' if shorthand else
+               f'column-gap:{px(doc["colgap"])};row-gap:{px(doc["rowgap"])};') + f'justify-content:{doc["jc"]};'
             f'align-content:{doc["ac"]};justify-items:{doc["ji"]};align-items:{doc["ai"]}')
     items = []
     for it in doc['items']:
-        css = (f'order:{it["order"]};grid-row-start:{show_place_css(it["rs"])};grid-row-end:{show_place_css(it["re"])};'
-               f'grid-column-start:{show_place_css(it["cs"])};grid-column-end:{show_place_css(it["ce"])};'
+        lines = ((f'grid-row:{show_place_css(it["rs"])} / {show_place_css(it["re"])};'
+                  f'grid-column:{show_place_css(it["cs"])} / {show_place_css(it["ce"])};') if shorthand else
+                 (f'grid-row-start:{show_place_css(it["rs"])};grid-row-end:{show_place_css(it["re"])};'
+                  f'grid-column-start:{show_place_css(it["cs"])};grid-column-end:{show_place_css(it["ce"])};'))
+        css = (f'order:{it["order"]};' + lines +
                f'width:{px(it["width"])};height:{px(it["height"])};'
                f'margin:{px(it["mt"])} {px(it["mr"])} {px(it["mb"])} {px(it["ml"])};'
                f'padding:{px(it["pt"])} {px(it["pr"])} {px(it["pb"])} {px(it["pl"])};'
@@ -480,23 +492,24 @@ class WallClock(RuntimeError):
 
 @contextlib.contextmanager
 def wall_clock(seconds):
-    """Last-resort guard for the `while True` loops of the placement (no `count()` to bound)."""
+    """Last-resort guard for the `while True` loops of the placement (no `count()` to bound): CPU seconds of
+    this process (ITIMER_PROF), so that a loaded machine cannot make a healthy render look like a hang."""
     def handler(signum, frame):
         raise WallClock(f'no result after {seconds}s')
-    previous = signal.signal(signal.SIGALRM, handler)
-    signal.setitimer(signal.ITIMER_REAL, seconds)
+    previous = signal.signal(signal.SIGPROF, handler)
+    signal.setitimer(signal.ITIMER_PROF, seconds)
     try:
         yield
     finally:
-        signal.setitimer(signal.ITIMER_REAL, 0)
-        signal.signal(signal.SIGALRM, previous)
+        signal.setitimer(signal.ITIMER_PROF, 0)
+        signal.signal(signal.SIGPROF, previous)
 
 
-def impl_doc(doc, seconds=20):
+def impl_doc(doc, seconds=20, shorthand=False):
     def go():
         record = []
         with spy_tracks(record), wall_clock(seconds):
-            document = docs.render(html_of(doc))
+            document = docs.render(html_of(doc, shorthand))
         if len(document.pages) != 1:
             return f'pages={len(document.pages)}'
         cont = find_by_id(document, 'c')
